@@ -177,3 +177,29 @@ impl Cell {
         self.attrs.inverse()
     }
 }
+
+#[cfg(vt100_verif)]
+impl Cell {
+    pub(crate) fn verif_dump(&self, out: &mut String) {
+        use std::fmt::Write as _;
+        if *self == Self::new() {
+            out.push('_');
+            return;
+        }
+        for (i, c) in self.contents().chars().enumerate() {
+            if i > 0 {
+                out.push('.');
+            }
+            write!(out, "{:x}", u32::from(c)).unwrap();
+        }
+        out.push(':');
+        if self.is_wide() {
+            out.push('w');
+        }
+        if self.is_wide_continuation() {
+            out.push('c');
+        }
+        out.push(':');
+        self.attrs.verif_dump(out);
+    }
+}
